@@ -5,6 +5,7 @@ namespace vpsched {
 struct TlView {
     char *ring; size_t size;
     long *write, *read, *lookahead;   // raw storage of the three indices
+    bool indices_atomic;              // all three are std::atomic objects
     char *write_buffer, *read_buffer; size_t max_msg;
 };
 TlView view(rtosc::ThreadLink &t);
